@@ -116,6 +116,9 @@ func baseTemplate(setName, tid string, nclaims int) v1.PodTemplateSpec {
 	if tid == "t4" { // the template without labels (the CRD schema does not look into the template)
 		s.Spec.Template.Labels = nil
 	}
+	if tid == "t5" { // a template whose labels go beyond the selector's
+		s.Spec.Template.Labels["tier"] = "x"
+	}
 	apps.SetObjectDefaults_StatefulSet(s)
 	// through JSON once, so that the representation is the one a decoded object has
 	b, _ := json.Marshal(s.Spec.Template)
@@ -242,7 +245,7 @@ func (w *World) natural(setName, tid string, c int32) *kubeapps.ControllerRevisi
 	return got
 }
 
-var allTmpls = []string{"t0", "t1", "t2", "t3", "t4"}
+var allTmpls = []string{"t0", "t1", "t2", "t3", "t4", "t5"}
 
 func (w *World) warm(setName string) {
 	for _, t := range allTmpls {
